@@ -159,6 +159,20 @@ def h1_request(draw: Any, allow_head: bool = False, big: bool = True,
     host = draw(st.sampled_from(["example.com", "localhost:8080", "[::1]:443", "a.b"]))
     pos = draw(st.integers(0, len(headers)))
     headers.insert(pos, [draw(st.sampled_from(["Host", "host", "HOST"])), host, " ", ""])
+    # an Upgrade offer the server does not take: h2c next to a body (documented: answered in
+    # HTTP/1.1) or an unknown protocol; the request must be served like any other
+    upgrade = draw(st.sampled_from([None, None, None, None, "h2c", "other"]))
+    if upgrade == "h2c" and (framing == "none" or version != "1.1"):
+        upgrade = None
+    if upgrade is not None:
+        extra = [[draw(st.sampled_from(["Upgrade", "upgrade"])),
+                  "h2c" if upgrade == "h2c" else "verif-proto/1", " ", ""],
+                 ["Connection", "Upgrade, HTTP2-Settings" if upgrade == "h2c" else "upgrade",
+                  " ", ""]]
+        if upgrade == "h2c":
+            extra.append(["HTTP2-Settings", "AAMAAABkAAQAAP__", " ", ""])
+        for h in extra:
+            headers.insert(draw(st.integers(0, len(headers))), h)
     req = {
         "method": draw(method(allow_head=allow_head)),
         "path": draw(raw_path()),
@@ -166,6 +180,7 @@ def h1_request(draw: Any, allow_head: bool = False, big: bool = True,
         "version": version,
         "headers": headers,
         "framing": framing,
+        "framing_pos": draw(st.one_of(st.none(), st.integers(0, len(headers)))),
         "body_len": body["len"],
         "body_seed": body["seed"],
         "chunks": draw(chunk_plan(body["len"])) if framing == "chunked" else [],
